@@ -398,17 +398,18 @@ Lemma h_collect_fees_effect w b w' :
   exists hb hb', effb w w' b hb hb' /\ bank_static (hb_b hb) (hb_b hb') /\ hb_static hb hb' /\
     b_tas (hb_b hb') = b_tas (hb_b hb) /\ b_tls (hb_b hb') = b_tls (hb_b hb) /\
     b_asv (hb_b hb') = b_asv (hb_b hb) /\ b_lsv (hb_b hb') = b_lsv (hb_b hb) /\
-    exists m, hb_vault hb' * ONE = hb_vault hb * ONE - m /\
-              Fv (hb_b hb') = Fv (hb_b hb) - m.
+    (exists m, hb_vault hb' * ONE = hb_vault hb * ONE - m /\
+              Fv (hb_b hb') = Fv (hb_b hb) - m) /\
+    I128_MIN <= b_grp (hb_b hb') /\ I128_MIN <= b_prog (hb_b hb').
 Proof.
   intros H. pose proof H as H0. unfold h_collect_fees in H.
   apply bind_ok in H as (hb & Hhb & H).
   destruct (collect_fees_inv _ _ _ _ Hhb H0) as (hb' & Hhb' & F). cbv zeta in F.
   destruct F as (F1 & F2 & F3 & FV & _ & T1 & T2 & S1 & S2).
   apply bind_ok in H as (ins_new & _ & H). apply bind_ok in H as (avail1 & _ & H).
-  apply bind_ok in H as (grp_new & _ & H). apply bind_ok in H as (avail2 & _ & H).
+  apply bind_ok in H as (grp_new & Hgn & H). apply math_ok, csub_inv in Hgn as [_ Hgn]. apply bind_ok in H as (avail2 & _ & H).
   apply bind_ok in H as (u1 & _ & H). apply bind_ok in H as (grp_n & _ & H). apply bind_ok in H as (ins_n & _ & H).
-  apply bind_ok in H as (prog_new & _ & H). apply bind_ok in H as (avail3 & _ & H).
+  apply bind_ok in H as (prog_new & Hpn & H). apply math_ok, csub_inv in Hpn as [_ Hpn]. apply bind_ok in H as (avail3 & _ & H).
   apply bind_ok in H as (u2 & _ & H). apply bind_ok in H as (prog_n & _ & H).
   apply bind_ok in H as (u3 & _ & H). apply bind_ok in H as (f1 & _ & H).
   apply bind_ok in H as (u4 & _ & H). apply bind_ok in H as (f2 & _ & H).
@@ -423,7 +424,8 @@ Proof.
     repeat split; try assumption; reflexivity.
   - split; [rewrite E; unfold hbf; bs_refl|]. split; [rewrite E; unfold hbf, hb_static; cbn; repeat split; reflexivity|].
     repeat (split; [assumption|]).
-    eexists. split; [exact FV|]. unfold Fv. rewrite F1, F2, F3. lia.
+    split; [eexists; split; [exact FV|]; unfold Fv; rewrite F1, F2, F3; lia|].
+    rewrite E. unfold hbf. cbn [hb_b set_hb_feeata set_hb_insv set_hb_feev set_hb_vault set_hb_b set_b_prog set_b_grp set_b_ins b_grp b_prog]. lia.
 Qed.
 
 (* ---------------------------------------------------------------- bankruptcy *)
